@@ -308,6 +308,81 @@ def run_mixed_style_clash(ctx, i, rng):
                 lambda: dict(case=desc))
 
 
+def run_shared_shape(ctx, i, rng):
+  """One module instance whose parameter shape follows its input, used twice inside a single init/apply with inputs of widths
+  (w1, w2): when the shapes differ the second use must raise ScopeParamShapeError - in init, jit(init), eval_shape(init) and
+  apply alike - even when the stored parameter would broadcast against the second input; when they agree, init and apply agree."""
+  import jax
+  import jax.numpy as jnp
+  import flax.linen as nn
+  from flax import errors
+  share = ['compact_local', 'setup_member', 'attribute'][i % 3]
+  pkind = ['bias', 'scale_col', 'dense'][(i // 3) % 3]
+  w1, w2 = [(3, 1), (1, 3), (3, 3), (4, 1), (2, 2), (1, 4), (1, 1), (2, 1)][(i // 9) % 8]
+  how = ['init', 'jit_init', 'eval_shape', 'init'][(i // 72) % 4]
+  desc = dict(sharing=share, param=pkind, widths=(w1, w2), how=how)
+  with ctx.case('shared_shape', i, desc, nontrivial=True):
+    class Follow(nn.Module):
+      @nn.compact
+      def __call__(self, x):
+        if pkind == 'bias':
+          return x + self.param('b', nn.initializers.normal(1.0), (x.shape[-1],))
+        if pkind == 'scale_col':
+          return x * self.param('s', nn.initializers.normal(1.0), (x.shape[-1], 1))[:, 0]
+        k = self.param('k', nn.initializers.normal(1.0), (x.shape[-1], 2))
+        return jnp.sum(x[..., :, None] * k[None], axis=-2) if x.shape[-1] != k.shape[0] else x @ k
+
+    class Parent(nn.Module):
+      child: nn.Module = None
+
+      def setup(self):
+        if share == 'setup_member':
+          self.member = Follow()
+
+      @nn.compact
+      def __call__(self, xa, xb):
+        f = Follow() if share == 'compact_local' else (self.member if share == 'setup_member' else self.child)
+        return jnp.sum(f(xa)) + jnp.sum(f(xb))
+
+    m = Parent(child=Follow() if share == 'attribute' else None)
+    xa, xb = jnp.ones((2, w1)), jnp.ones((2, w2)) * 0.5
+    pshape = lambda w: {'bias': (w,), 'scale_col': (w, 1), 'dense': (w, 2)}[pkind]  # noqa: E731
+    mismatch = pshape(w1) != pshape(w2)
+    key = jax.random.key(i)
+
+    def do_init():
+      if how == 'jit_init':
+        return jax.jit(m.init)(key, xa, xb)
+      if how == 'eval_shape':
+        return jax.eval_shape(m.init, key, xa, xb)
+      return m.init(key, xa, xb)
+
+    v, raised = None, None
+    try:
+      v = do_init()
+    except errors.ScopeParamShapeError as e:
+      raised = e
+    except (TypeError, ValueError) as e:
+      # the forward computation itself may reject the shapes before/after the second param() call: not a verdict either way
+      ctx.event('note.shared_shape:forward_rejects:' + type(e).__name__)
+      return
+    ctx.op('%s(shared instance, widths %s)' % (how, 'differ' if mismatch else 'equal'))
+    if mismatch:
+      ctx.check(raised is not None, 'init:wrong_shape_not_rejected:shared_instance',
+                lambda: dict(case=desc, returned=jax.tree_util.tree_map(lambda a: tuple(np.shape(a)), jax.tree_util.tree_map(lambda a: a, v))))
+      if raised is None and how == 'init':
+        # what init returned must at least be what apply consumes
+        try:
+          m.apply(v, xa, xb)
+        except errors.ScopeParamShapeError:
+          ctx.check(False, 'init_apply_agree:init_accepts_what_apply_rejects', lambda: dict(case=desc))
+    else:
+      if ctx.check(raised is None, 'init:equal_shapes_rejected:shared_instance', lambda: dict(case=desc, error=repr(raised)[:200])) and how != 'eval_shape':
+        y0 = m.init_with_output(key, xa, xb)[0] if how == 'init' else None
+        y = m.apply(v, xa, xb)
+        ctx.check(y0 is None or bool(jnp.allclose(y, y0)), 'init_apply_agree:output:shared_instance', lambda: dict(case=desc))
+
+
 def run_reentrant(ctx, i, rng):
   """Re-entrant compact methods (a subclass calling super().__call__, a method calling self recursively): auto-names keep
   counting in creation order across the re-entrant calls, so every layer gets its own subtree."""
@@ -457,6 +532,8 @@ def run(ctx):
     run_share_scope(ctx, i, ctx.rng('share', i))
   for i in ctx.indices(24 if ctx.tier == 'quick' else 200, 'reentrant'):
     run_reentrant(ctx, i, ctx.rng('reentrant', i))
+  for i in ctx.indices(144 if ctx.tier == 'quick' else 288, 'shared_shape'):
+    run_shared_shape(ctx, i, ctx.rng('shared_shape', i))
   for i in ctx.indices(54, 'mixed_clash'):
     run_mixed_style_clash(ctx, i, ctx.rng('mixed_clash', i))
   rlog = RngLog(ctx)
